@@ -122,6 +122,19 @@ type srvStream struct {
 	mu      sync.Mutex
 	sent    []*repResp
 	sendErr error
+	stall   chan struct{} // non-nil: Send blocks (the cluster behind the stream is not reading) until released or the stream ends
+}
+
+// SetStall(true): from now on Send blocks; SetStall(false) releases every blocked Send.
+func (s *srvStream) SetStall(on bool) {
+	s.mu.Lock()
+	defer s.mu.Unlock()
+	if on && s.stall == nil {
+		s.stall = make(chan struct{})
+	} else if !on && s.stall != nil {
+		close(s.stall)
+		s.stall = nil
+	}
 }
 
 func newSrvStream(ctx context.Context) *srvStream {
@@ -137,6 +150,16 @@ func (s *srvStream) Recv() (*repReq, error) {
 	}
 }
 func (s *srvStream) Send(r *repResp) error {
+	s.mu.Lock()
+	st := s.stall
+	s.mu.Unlock()
+	if st != nil {
+		select {
+		case <-st:
+		case <-s.ctx.Done():
+			return s.ctx.Err()
+		}
+	}
 	s.mu.Lock()
 	defer s.mu.Unlock()
 	if s.sendErr != nil {
